@@ -193,6 +193,7 @@ func runC08(c c08Case) (obs c08Obs, err error) {
 	obs.RaceBuild = raceEnabled
 	obs.Procs = runtime.GOMAXPROCS(0)
 	c08Count = c.Count
+	c08ResetShared() // the converted objects this case's caller shares between its renders (c08data.go)
 	before := len(raceLog())
 
 	e := newEngine(dir, c.Debug, c.RateLimit, c08Funcs())
